@@ -89,11 +89,7 @@ Proof.
   - discriminate.
 Qed.
 
-(* the recorded AllocatedHyperNode after a committed placement is, by
-   definition of the code, GetLCAHyperNode(previous, chosen) *)
-Theorem allocated_hypernode_is_lca : forall hn prev chosen,
-  new_allocated hn prev chosen = get_lca hn prev (Some chosen).
-Proof. reflexivity. Qed.
+
 
 (* ================= GetAncestors / GetLCAHyperNode on forests ================= *)
 Section Par.
